@@ -5,7 +5,7 @@ from kappadata.utils.getall_as_tensor import getall_as_tensor
 class SortByClassWrapper(KDSubset):
     def __init__(self, dataset):
         num_classes = dataset.getdim_class()
-        classes = getall_as_tensor(dataset)
+        classes = getall_as_tensor(dataset).long()
         indices = []
         # unlabeled samples (-1) sort before class 0
         for i in range(-1, num_classes):
